@@ -19,6 +19,7 @@ pub mod c14;
 pub mod c15;
 pub mod c17;
 pub mod c18;
+pub mod cbmt;
 pub mod env;
 pub mod mmr;
 pub mod node;
@@ -353,6 +354,15 @@ fn mmr_part(opts: &Options, prop: &str) -> Report {
     m
 }
 
+/// the function-level differential of the transactions Merkle proof as a part of the check of `prop`
+fn cbmt_part(opts: &Options, prop: &str) -> Report {
+    let mut m = cbmt::run(opts);
+    for v in m.violations.iter_mut() {
+        v.signature = format!("{}|cbmt|{}", prop, v.signature);
+    }
+    m
+}
+
 pub fn main() {
     let opts = parse_args();
     silence_panics();
@@ -418,16 +428,17 @@ pub fn main() {
             // (`verify_mmr_proof` against the Mmr model and the soundness oracle)
             let text = opts.replay.as_ref().map(|p| std::fs::read_to_string(p).unwrap_or_default());
             let has = |key: &str| text.as_ref().map(|t| t.lines().any(|l| l.split_whitespace().next() == Some(key))).unwrap_or(true);
-            let only_mmr = opts.replay.is_some() && has("mmr-case") && !has("history-seed");
-            if only_mmr {
-                mmr_part(&opts, "C02")
-            } else {
-                let mut r = c02::run(&opts, "C02");
-                if has("mmr-case") {
-                    r.merge(mmr_part(&opts, "C02"));
-                }
-                r
+            let only_fn = opts.replay.is_some() && (has("mmr-case") || has("cbmt-case")) && !has("history-seed");
+            let mut r = if only_fn { Report::default() } else { c02::run(&opts, "C02") };
+            if has("mmr-case") {
+                let m = mmr_part(&opts, "C02");
+                if only_fn && r.rule.is_empty() { r = m } else { r.merge(m) }
             }
+            if has("cbmt-case") {
+                let m = cbmt_part(&opts, "C02");
+                if only_fn && r.rule.is_empty() { r = m } else { r.merge(m) }
+            }
+            r
         }
         "C16" => c02::run(&opts, "C16"),
         "C04" => c04::run(&opts),
@@ -471,6 +482,9 @@ pub fn main() {
             // the model including the panic classes
             let mut r = c10::run(&opts);
             if opts.replay.is_none() && std::env::var("C10_JOBS").is_err() {
+                // the two library-level differentials whose abort classes C10 claims
+                r.merge(mmr_part(&opts, "C10"));
+                r.merge(cbmt_part(&opts, "C10"));
                 let mut o2 = opts.clone();
                 o2.property = "C10".into();
                 let mut p = prove::run(&o2, "C10");
@@ -489,6 +503,7 @@ pub fn main() {
         "C17" => c17::run(&opts),
         "C18" => c18::run(&opts),
         "MMR" => mmr::run(&opts),
+        "CBMT" => cbmt::run(&opts),
         "SIMTEST" => simtest::run(&opts),
         other => {
             eprintln!("unknown property {}", other);
